@@ -333,3 +333,46 @@ package mysql
 //@ func AsConnError
 //@   assigns \nothing
 //@   ensures ret0 <==> typeis(err, ConnTypeError)
+
+// ---------------------------------------------------------------- C30 password proofs
+// SHA-1 / SHA-256 are trusted and opaque: a hash object absorbs writes without touching anything else and returns a fresh
+// digest of its size. (The digest VALUES are not modelled: 'accepts exactly the proofs MySQL accepts' is decided for the
+// parts that do not depend on them -- proof length, frames, panic freedom, candidate selection.)
+//@ pure hashSize(h hash.Hash) int
+//@ trusted crypto/sha1.New
+//@   pure-call
+//@   ensures ret0 != nil && hashSize(ret0) == 20
+//@ trusted crypto/sha256.New
+//@   pure-call
+//@   ensures ret0 != nil && hashSize(ret0) == 32
+//@ trusted (hash.Hash).Write
+//@   params recv, p
+//@   pure-call
+//@ trusted (hash.Hash).Reset
+//@   params recv
+//@   pure-call
+//@ trusted (hash.Hash).Sum
+//@   params recv, b
+//@   pure-call
+//@   ensures fresh(ret0) && len(ret0) == len(b) + hashSize(recv)
+//@ property C30: CalcPassword, CheckHashPassword, CalcCachingSha2Password
+
+// the scramble of a clear-text password: 20 fresh bytes (nil for an empty password); the arguments are not modified
+//@ func CalcPassword
+//@   assigns \nothing
+//@   loop 0 invariant fresh(cur(scramble)) && len(cur(scramble)) == 20 && len(stage1) == 20
+//@   ensures len(password) == 0 ==> ret0 == nil
+//@   ensures len(password) != 0 ==> fresh(ret0) && len(ret0) == 20
+
+// the hashed-password check: accepts only proofs of exactly 20 bytes, never modifies the client's response (other candidate
+// passwords are checked against the same bytes afterwards), and is panic-free for every response length
+//@ func CheckHashPassword
+//@   assigns \nothing
+//@   loop 0 invariant fresh(stage1) && len(stage1) == len(clientResp) && len(hash) == 20 && len(clientResp) == 20
+//@   ensures case length: ret0 ==> len(clientResp) == 20 && len(encryptPassword) != 0
+
+//@ func CalcCachingSha2Password
+//@   assigns \nothing
+//@   loop 0 invariant fresh(message1) && len(message1) == 32 && len(message2) == 32
+//@   ensures len(password) == 0 ==> ret0 == nil
+//@   ensures len(password) != 0 ==> fresh(ret0) && len(ret0) == 32
